@@ -108,6 +108,26 @@ CLAIMED = {
                  "Exact once-per-iteration over add/free histories is declined.",
          "note": STD_NOTE,
          "technique": "static analysis: dominator/post-path ordering (K3), pointer provenance (K8), traversal-cursor safety rule over natural loops (K9)"},
+ "C26": {"level": "other",
+         "text": "Field-based taint over http.c/ws.c: the %s sinks of the serializer are discovered from its evbuffer_add_printf calls; every store into a printed field must "
+                 "take NULL, a constant, a library-generated or wire-parsed string, or an API parameter that reaches the store only past a CR/LF-rejecting validator; unvalidated "
+                 "parameters turn the function into a forwarder and the obligation moves to its callers until it reaches a public parameter. Found and repaired two genuine "
+                 "injection defects (request target, reason phrase). Does not decide that a serialization parses back to exactly one message nor chunk framing.",
+         "note": STD_NOTE + " Assumes wire-parsed strings are not re-serialized by the library and that extension method names come from application code.",
+         "technique": "static analysis: interprocedural field-based taint with validator edges (K8)"},
+ "C40": {"level": "other",
+         "text": "Capacity strictness in evutil_inet_ntop (a copy into dst must be dominated by the failed test strlen(buf) >= len, the snprintf result by r >= len) and "
+                 "index/range guards in evutil_inet_pton (words[i] under i <= 7, packed bytes under <= 255). Found and repaired the off-by-one in both IPv6 branches. "
+                 "Equality of the acceptance set with the platform parser is declined.",
+         "note": STD_NOTE,
+         "technique": "static analysis: dominating-guard strictness (K4)"},
+ "C42": {"level": "other",
+         "text": "Decoder bounds in event_tagging.c: every evbuffer_pullup result is NULL-tested before arithmetic/dereference/hand-over (K12); every read through a pulled-up "
+                 "pointer is bounded by the pulled-up size (loop counter compared with the very variable passed as size; index template IDX vs size IDX+1 with only decreasing "
+                 "index variables; constant indices) (K4); header-declared lengths are compared with the available bytes before being consumed. Found and repaired a 1-byte "
+                 "heap over-read and two NULL-arithmetic crashes. The marshal/unmarshal round trip is declined.",
+         "note": STD_NOTE + " Assumes evbuffer_pullup(buf,n) guarantees exactly n contiguous bytes.",
+         "technique": "static analysis: failure-edge/null-test ordering (K12), extent-versus-guard templates on the CFG (K4)"},
 }
 
 NOT_APPLICABLE = {
